@@ -579,3 +579,18 @@ PLAN['C05']['stages'] = lambda tier, seed: (
     [verifier('verifier_del', 7 if tier == 'quick' else 8, 1, 0, invs=('DelOK',))] + _c05(tier, seed))
 PLAN['C05']['rule'] += (' Spec level: on spec/VerifierFun.tla the roots computed by the deletion walk for an accepted proof of live '
                         'leaves equal Roots(n, live \\ D) in every request order.')
+
+
+def stumpalg(tier):
+    q = tier == 'quick'
+    return {'kind': 'spec_check', 'name': 'stumpalg_refines', 'module': 'StumpAlg', 'spec': 'SSpec',
+            'constants': {'MaxN': 6 if q else 8, 'MaxAdds': 2 if q else 3, 'MaxClaim': 0, 'MaxProof': 0, 'NJunk': 0, 'Variant': '"fixed"'},
+            'invariants': ['RootsRefine', 'UpdateRefine'], 'timeout': 900 if q else 7200}
+
+
+for _p in ('C01', 'C11'):
+    PLAN[_p]['stages'] = (lambda f: (lambda tier, seed: [stumpalg(tier)] + f(tier, seed)))(PLAN[_p]['stages'])
+    PLAN[_p]['rule'] += (' Spec level: spec/StumpAlg.tla keeps the root list incrementally (deleting by walking an honest proof with empty '
+                         'hashes, adding leaf by leaf over the trailing one-bits of the count) and TLC checks over all block histories '
+                         'in bounds that it equals the history-free Forest!Roots(n, live) - hence independence of batching - and that the '
+                         'destroyed roots and recomputed (position, hash) pairs equal UpdateDataRef.')
